@@ -1,5 +1,9 @@
 """Shared Hypothesis strategies (DESIGN.md section 3).  Everything produced is JSON data."""
+import functools
+
 from hypothesis import strategies as st
+
+_cache = functools.lru_cache(maxsize=None)   # strategies are built once per argument tuple: construction + validation dominate otherwise
 
 INT_DT = ["int8", "int16", "int32", "int64", "uint8", "uint16", "uint32", "uint64"]
 FLOAT_DT = ["float32", "float64"]
@@ -24,11 +28,13 @@ def tier_sizes(tier):
     return dict(max_rows=6, max_len=5, long_rows=12, long_len=20)
 
 
+@_cache
 def _rowlen(max_len, min_len=0):
     small = [l for l in (0, 0, 0, 1, 1, 2, 2, 3, 4, 5) if min_len <= l <= max_len] or [min_len]
     return st.one_of(st.sampled_from(small), st.integers(min_len, max_len))
 
 
+@_cache
 def lengths(tier, min_rows=0, min_len=0, max_rows=None, max_len=None):
     """Row-length vectors with every empty-row placement class at double-digit probability."""
     sz = tier_sizes(tier)
@@ -93,6 +99,7 @@ def has_mixed_empty(lens):
 
 # ---------------------------------------------------------------- contents
 
+@_cache
 def int_elem(dt, mag=None):
     lo, hi = _INFO[dt]
     if mag is not None:
@@ -101,6 +108,7 @@ def int_elem(dt, mag=None):
     return st.one_of(st.sampled_from(notable), st.integers(max(lo, -9), min(hi, 9)), st.integers(lo, hi))
 
 
+@_cache
 def float_elem(dt, specials=True, mag=256):
     dy = st.integers(-4 * mag, 4 * mag).map(lambda k: k / 4.0)
     small = st.integers(-8, 8).map(float)
@@ -110,6 +118,7 @@ def float_elem(dt, specials=True, mag=256):
     return st.one_of(small, dy, sp)
 
 
+@_cache
 def elem(dt, specials=True, mag=None):
     if dt == "bool":
         return st.booleans()
@@ -118,12 +127,13 @@ def elem(dt, specials=True, mag=None):
     return float_elem(dt, specials, mag or 256)
 
 
+@_cache
 def flat_values(dt, n, specials=True, mag=None, dup=False):
     e = elem(dt, specials, mag)
     if dup:
         # few distinct values -> duplicates and runs
-        return st.lists(e, min_size=1, max_size=3).flatmap(
-            lambda pool: st.lists(st.sampled_from(pool), min_size=n, max_size=n))
+        return st.tuples(st.lists(e, min_size=3, max_size=3), st.lists(st.integers(0, 2), min_size=n, max_size=n)).map(
+            lambda t: [t[0][i] for i in t[1]])
     return st.lists(e, min_size=n, max_size=n)
 
 
@@ -142,14 +152,17 @@ def ragged(draw, tier, dts=ALL_DT, min_rows=0, min_len=0, specials=True, mag=Non
 
 # ---------------------------------------------------------------- index grammar
 
+@_cache
 def bound(n, extra=3):
     return st.one_of(st.none(), st.integers(-n - extra, n + extra))
 
 
+@_cache
 def step_st(n):
     return st.sampled_from(sorted({1, -1, 2, -2, 3, -3, max(n, 1), -max(n, 1), n + 2, -(n + 2)}) + [None, None, 1, -1])
 
 
+@_cache
 def slice_st(n):
     return st.tuples(bound(n), bound(n), step_st(n)).map(lambda t: ["s", t[0], t[1], t[2]])
 
@@ -157,6 +170,7 @@ def slice_st(n):
 INT_INDEX_DT = ["int64", "int32", "int16", "int8", "uint8", "uint32", "intp"]
 
 
+@_cache
 def rowsel(n, norepeat=False, allow_bad_int=True):
     """Row selector for an array of n rows."""
     alts = []
@@ -167,9 +181,8 @@ def rowsel(n, norepeat=False, allow_bad_int=True):
     alts.append(slice_st(n))
     if n > 0:
         if norepeat:
-            lst = st.lists(st.integers(0, n - 1), unique=True, max_size=n).flatmap(
-                lambda idx: st.lists(st.booleans(), min_size=len(idx), max_size=len(idx)).map(
-                    lambda neg: [i - n if g else i for i, g in zip(idx, neg)]))
+            lst = st.tuples(st.permutations(list(range(n))), st.integers(0, n), st.lists(st.booleans(), min_size=n, max_size=n)).map(
+                lambda t: [i - n if g else i for i, g in zip(t[0][:t[1]], t[2])])
         else:
             lst = st.lists(st.integers(-n, n - 1), max_size=n + 3)
     else:
@@ -180,6 +193,7 @@ def rowsel(n, norepeat=False, allow_bad_int=True):
     return st.one_of(*alts)
 
 
+@_cache
 def colsel(L, allow_none=True):
     alts = [st.tuples(st.integers(-L - 2, L + 1), st.booleans()).map(lambda t: ["i", t[0], t[1]]),
             slice_st(L), slice_st(L)]
